@@ -248,7 +248,6 @@ theorem acceptCode_proj {cfg : Cfg} {i : Nat} {mc : MethodCfg} (hmc : methodCfgO
       (by intro unk k pay; simp [hn]) t.slots
     have h3 : (t.insns.map (fun x => Ev.codeInsns i x.1 x.2)).filterMap (projA cfg) = [] := by
       rw [List.filterMap_map]; exact filterMap_all_none _ (by intro a; simp [hn, keepIf]) _
-    simp only [allMask] at h1 h2
     cases t.maxs <;> cases t.lines <;> cases t.locals <;>
       simp [List.filterMap_append, hmc, hcode, hn, keepIf, h1, h2, h3]
   | true =>
@@ -261,7 +260,6 @@ theorem acceptCode_proj {cfg : Cfg} {i : Nat} {mc : MethodCfg} (hmc : methodCfgO
         (by intro unk k pay; simp [hn]) t.slots
       have h3 : (t.insns.map (fun x => Ev.codeInsns i x.1 x.2)).filterMap (projA cfg) = [] := by
         rw [List.filterMap_map]; exact filterMap_all_none _ (by intro a; simp [hn, keepIf]) _
-      simp only [allMask] at h1 h2
       cases t.maxs <;> cases t.lines <;> cases t.locals <;>
         simp [List.filterMap_append, hmc, hcode, hn, keepIf, h1, h2, h3]
     | some cm =>
@@ -273,7 +271,6 @@ theorem acceptCode_proj {cfg : Cfg} {i : Nat} {mc : MethodCfg} (hmc : methodCfgO
       have h3 : (t.insns.map (fun x => Ev.codeInsns i x.1 x.2)).filterMap (projA cfg)
           = t.insns.map (fun x => Ev.codeInsns i x.1 x.2) := by
         rw [List.filterMap_map]; exact filterMap_all_some _ _ (by intro a; simp [hn, keepIf]) _
-      simp only [allMask] at h1 h2
       cases t.maxs <;> cases t.lines <;> cases t.locals <;> cases hl : cm .lineNumberTable <;>
         cases hv : cm .lvt <;> cases hw : cm .lvtt <;>
         simp [List.filterMap_append, hmc, hcode, hn, keepIf, h1, h2, h3, hl, hv, hw]
@@ -289,7 +286,6 @@ theorem acceptCode_drop {cfg : Cfg} {i : Nat} (hb : projA cfg (.codeBegin i) = n
     (by intro unk k pay; simp [hn]) t.slots
   have h3 : (t.insns.map (fun x => Ev.codeInsns i x.1 x.2)).filterMap (projA cfg) = [] := by
     rw [List.filterMap_map]; exact filterMap_all_none _ (by intro a; simp [hn, keepIf]) _
-  simp only [allMask] at h1 h2
   cases t.maxs <;> cases t.lines <;> cases t.locals <;>
     simp [List.filterMap_append, hb, hn, keepIf, h1, h2, h3]
 
@@ -428,8 +424,8 @@ theorem projA_eq_proj (cfg : Cfg) (hf : cfg.fieldsI = true) (hm : cfg.methodsI =
   | codeMaxs i h => simp [hcmA]
   | codeExc i h => simp [hcmA]
   | codeEnd i => simp [hcmA]
-  | kAttr i unk k pay => simp [hcmA]
-  | codeLines i parts => simp [hcmA]
+  | kAttr i unk k pay => simp only [projA_kAttr, proj_kAttr, hcmA]; cases codeMaskOf cfg i <;> rfl
+  | codeLines i parts => simp only [projA_codeLines, proj_codeLines, hcmA]; cases codeMaskOf cfg i <;> rfl
   | codeInsns i fr h =>
     simp only [projA_codeInsns, proj_codeInsns, hcmA]
     cases hcm : codeMaskOf cfg i with
@@ -446,10 +442,12 @@ theorem projA_eq_proj (cfg : Cfg) (hf : cfg.fieldsI = true) (hm : cfg.methodsI =
       | false =>
         have : parts.filter (fun x => if x.1 = true then cm .lvt else cm .lvtt) = [] := by
           simp [hl, hv]
+        simp only [this]
         simp [keepIf, hl, hv]
       | true =>
         have : parts.filter (fun x => if x.1 = true then cm .lvt else cm .lvtt) = parts := by
           simp [hl, hv]
+        simp only [this]
         simp [keepIf, hl, hv, hp]
   | _ => rfl
 
